@@ -24,6 +24,8 @@ class TableInfo:
     join_type: str = None
     index: int = None
     bare_name: bool = False
+    # rows of this table can be replaced by NULLs in the join result (operand of an outer join that is not preserved)
+    nullable: bool = False
 
 class PlanJoin:
 
@@ -292,6 +294,25 @@ class PlanJoinTablesQuery:
                     join = item
         self.query_context['use_limit'] = use_limit
 
+    def mark_nullable_tables(self, join_sequence):
+        # LEFT / FULL join: the right table is padded with NULLs; RIGHT / FULL join: everything joined before is
+        seen = []
+        for item in join_sequence:
+            if isinstance(item, TableInfo):
+                seen.append(item)
+            elif isinstance(item, Join):
+                kind = item.join_type.upper().split()[0]
+                if kind in ('LEFT', 'FULL'):
+                    seen[-1].nullable = True
+                if kind in ('RIGHT', 'FULL'):
+                    for table_info in seen[:-1]:
+                        table_info.nullable = True
+
+    @staticmethod
+    def filter_accepts_null(condition):
+        # `col IS NULL` is true for the NULLs an outer join puts in place of a missing row
+        return isinstance(condition, BinaryOperation) and condition.op.lower() == 'is'
+
     def plan_join_tables(self, query_in):
 
         # plan all nested selects in 'where'
@@ -345,6 +366,7 @@ class PlanJoinTablesQuery:
             join_sequence = [join_sequence[1], join_sequence[0], join_sequence[2]]
 
         self.check_use_limit(query_in, join_sequence)
+        self.mark_nullable_tables(join_sequence)
 
         # create plan
         # TODO add optimization: one integration without predictor
@@ -391,6 +413,8 @@ class PlanJoinTablesQuery:
         if 'or' in self.query_context['binary_ops']:
             # not use conditions (same rule as in process_table)
             conditions = []
+        if item.nullable:
+            conditions = [cond for cond in conditions if not self.filter_accepts_null(cond)]
         where = filters_to_bin_op(conditions)
 
         # apply table alias
@@ -417,6 +441,9 @@ class PlanJoinTablesQuery:
         if 'or' in self.query_context['binary_ops']:
             # not use conditions
             conditions = []
+        if item.nullable:
+            # on the null-supplying side only filters that reject NULLs can be applied before the join
+            conditions = [cond for cond in conditions if not self.filter_accepts_null(cond)]
 
         conditions += self.get_filters_from_join_conditions(item)
 
